@@ -1,4 +1,5 @@
 import Reduino.Fw.LcdAnim
+import Reduino.Fw.LcdAnimWrap
 /- helper lemmas for Props/C18.lean (individual Mathlib modules may be imported here) -/
 namespace Reduino.Lemmas.C18
 open Reduino Reduino.Lcd
@@ -538,5 +539,122 @@ theorem host_bounce_spec (text : List Char) (cols : Nat) (h0 : 0 < text.length) 
   · rw [if_pos h]; exact ⟨rfl, rfl, rfl⟩
   · rw [if_neg (by omega), if_pos hle, if_pos hsh]; simp
   · rw [if_neg (by omega), if_neg (by omega)]; exact ⟨rfl, rfl, rfl⟩
+
+/-! ## the counter (modular) clock vs the natural-number clock -/
+
+theorem counter_difference (W t t' : Nat) (h : t ≤ t') (hw : t' - t < W) :
+    ((t' % W) + W - (t % W)) % W = t' - t := by
+  have hW : 0 < W := by omega
+  obtain ⟨d, rfl⟩ := Nat.exists_eq_add_of_le h
+  have hd : d < W := by omega
+  have ha : t % W < W := Nat.mod_lt _ hW
+  have e : (t + d) % W = (t % W + d) % W := by rw [Nat.add_mod, Nat.mod_eq_of_lt hd]
+  rw [e]
+  by_cases hc : t % W + d < W
+  · rw [Nat.mod_eq_of_lt hc]
+    have : t % W + d + W - t % W = d + W := by omega
+    rw [this, Nat.add_mod_right, Nat.mod_eq_of_lt hd]; omega
+  · have h2 : (t % W + d) % W = t % W + d - W := by
+      rw [Nat.mod_eq_sub_mod (by omega), Nat.mod_eq_of_lt (by omega)]
+    rw [h2]
+    have : t % W + d - W + W - t % W = d := by omega
+    rw [this, Nat.mod_eq_of_lt hd]; omega
+
+theorem fw_step_lastStep (a : Anim) (g : Grid) (cols L : Nat) :
+    Fw.step { a with lastStep := L } g cols = ({ (Fw.step a g cols).1 with lastStep := L }, (Fw.step a g cols).2) := by
+  unfold Fw.step
+  cases hst : a.style <;> simp only [] <;> repeat' split
+  all_goals simp_all
+
+theorem dueW_eq_due (W : Nat) (a : Anim) (now : Nat) (h : Agrees W a now) :
+    (a.onCounter W).dueW W (now % W) = a.due now := by
+  unfold Anim.dueW Anim.due Anim.onCounter
+  rcases h with h0 | ⟨hnz, hle, hlt⟩
+  · simp [h0]
+  · have hpos : 0 < a.lastStep := by
+      rcases Nat.eq_zero_or_pos a.lastStep with h | h
+      · rw [h] at hnz; simp at hnz
+      · exact h
+    have hpos' : 0 < a.lastStep % W := Nat.pos_of_ne_zero hnz
+    simp only [counter_difference W a.lastStep now hle hlt]
+    simp [hpos, hpos']
+
+theorem fw_tick_eq (a : Anim) (g : Grid) (cols now : Nat) :
+    Fw.tick a g cols now =
+      if a.active && a.due now then ({ (Fw.step a g cols).1 with lastStep := now }, (Fw.step a g cols).2, true)
+      else (a, { grid := g }, false) := by
+  unfold Fw.tick
+  simp only [fw_step_lastStep]
+  cases a.active <;> cases a.due now <;> simp
+
+theorem fw_tickW_eq (W : Nat) (a : Anim) (g : Grid) (cols now : Nat) :
+    Fw.tickW W a g cols now =
+      if a.active && a.dueW W now then ({ (Fw.step a g cols).1 with lastStep := now }, (Fw.step a g cols).2, true)
+      else (a, { grid := g }, false) := by
+  unfold Fw.tickW
+  simp only [fw_step_lastStep]
+  cases a.active <;> cases a.dueW W now <;> simp
+
+theorem fw_step_onCounter (W : Nat) (a : Anim) (g : Grid) (cols : Nat) :
+    Fw.step (a.onCounter W) g cols = ((Fw.step a g cols).1.onCounter W, (Fw.step a g cols).2) := by
+  unfold Anim.onCounter
+  rw [fw_step_lastStep]
+  simp [(fw_step_fields a g cols).1]
+
+/-- one tick: the template on the counter value does what the natural-number model does at the real time -/
+theorem fw_tickW_simulates' (W : Nat) (a : Anim) (g : Grid) (cols now : Nat) (h : a.active = true → Agrees W a now) :
+    Fw.tickW W (a.onCounter W) g cols (now % W) =
+      ((Fw.tick a g cols now).1.onCounter W, (Fw.tick a g cols now).2.1, (Fw.tick a g cols now).2.2) := by
+  rw [fw_tickW_eq, fw_tick_eq, fw_step_onCounter]
+  have hact : (a.onCounter W).active = a.active := rfl
+  rw [hact]
+  cases ha : a.active
+  · simp
+  · rw [dueW_eq_due W a now (h ha)]
+    cases a.due now <;> simp [Anim.onCounter]
+
+theorem okAt_tick (W : Nat) (a : Anim) (g : Grid) (cols prev t : Nat) (hok : OkAt W a prev)
+    (hle : prev ≤ t) (hnz : t % W ≠ 0) :
+    OkAt W (Fw.tick a g cols t).1 t ∧ (Fw.tick a g cols t).1.speed = a.speed := by
+  have hf := fw_step_fields { a with lastStep := t } g cols
+  rcases fw_tick_cases a g cols t with ⟨_, _, h⟩ | ⟨hn, h⟩
+  · rw [h]
+    have hl : (Fw.step { a with lastStep := t } g cols).1.lastStep = t := hf.1
+    have hs : (Fw.step { a with lastStep := t } g cols).1.speed = a.speed := hf.2.1
+    refine ⟨Or.inr (Or.inr ?_), hs⟩
+    show (Fw.step { a with lastStep := t } g cols).1.lastStep % W ≠ 0 ∧ _ ∧ _
+    rw [hl]
+    exact ⟨hnz, Nat.le_refl _, by omega⟩
+  · rw [h]
+    show OkAt W a t ∧ a.speed = a.speed
+    refine ⟨?_, rfl⟩
+    unfold OkAt
+    rcases hn with hn | hn
+    · exact Or.inl hn
+    · rcases hok with h1 | h1 | ⟨h1, h2, h3⟩
+      · exact Or.inl h1
+      · exact Or.inr (Or.inl h1)
+      · refine Or.inr (Or.inr ⟨h1, by omega, ?_⟩)
+        simp [Anim.due] at hn
+        omega
+
+theorem fw_run_across_wrap_from (W cols : Nat) (ts : List Nat) (a : Anim) (g : Grid) (prev : Nat)
+    (hp : Paced W a.speed prev ts) (hok : OkAt W a prev) :
+    Fw.ticksW W cols ts (a.onCounter W, g) = ((Fw.ticks cols ts (a, g)).1.onCounter W, (Fw.ticks cols ts (a, g)).2) := by
+  induction ts generalizing a g prev with
+  | nil => rfl
+  | cons t ts ih =>
+    obtain ⟨hle, hgap, hnz, hrest⟩ := hp
+    have hag : a.active = true → Agrees W a t := by
+      intro ha
+      rcases hok with h1 | h1 | ⟨h1, h2, h3⟩
+      · rw [ha] at h1; cases h1
+      · exact Or.inl h1
+      · exact Or.inr ⟨h1, by omega, by omega⟩
+    have hsim := fw_tickW_simulates' W a g cols t hag
+    have hnext := okAt_tick W a g cols prev t hok hle hnz
+    simp only [Fw.ticksW, Fw.ticks]
+    rw [hsim]
+    exact ih (Fw.tick a g cols t).1 (Fw.tick a g cols t).2.1.grid t (by rw [hnext.2]; exact hrest) hnext.1
 
 end Reduino.Lemmas.C18
